@@ -54,6 +54,13 @@ func (c19) Gen(r *rand.Rand, tier string, run int) *core.Case {
 		c.Params["victim"] = 1
 		c.Params["victim_delay"] = r.IntN(150)
 	}
+	if r.IntN(5) == 0 {
+		// a registered service whose endpoint accepts connections and never
+		// says a word (a process that is stuck): whoever asks for it waits, and
+		// is not judged; everybody else is served meanwhile
+		c.Params["mute"] = 1
+		c.Params["mute_delay"] = r.IntN(60)
+	}
 	if r.IntN(4) == 0 {
 		c.Params["early_service"] = 1
 		c.Params["early_delay"] = r.IntN(120)
@@ -210,6 +217,44 @@ func (c19) Run(c *core.Case, env *core.Env) {
 			return
 		}
 	}
+	if c.P("mute", 0) == 1 {
+		zzsim.SetNode("mute")
+		ml, err := net.Listen("tcp://mute:7")
+		if err == nil {
+			go func() {
+				var held []net.Stream
+				for {
+					s, err := ml.Accept()
+					if err != nil {
+						return
+					}
+					held = append(held, s) // kept open, never read, never answered
+				}
+			}()
+		}
+		zzsim.SetNode("harness")
+		cl, err2 := Connect("registrar-mute", "u", "p")
+		if err == nil {
+			err = err2
+		}
+		var meta object.MetaObject
+		if err == nil {
+			meta, err = bus.GetMetaObject(cl, 1, 1)
+		}
+		if err == nil {
+			dir := services.MakeServiceDirectory(nil, bus.NewProxy(cl, meta, 1, 1))
+			var id uint32
+			id, err = dir.RegisterService(services.ServiceInfo{Name: "ProbeMute", MachineId: "mm", ProcessId: 8,
+				Endpoints: []string{"tcp://mute:7"}, SessionId: "sm"})
+			if err == nil {
+				err = dir.ServiceReady(id)
+			}
+		}
+		if err != nil {
+			env.Violate("harness/setup", "mute service: %v", err)
+			return
+		}
+	}
 	env.S.Quiesce()
 	// the session under test
 	zzsim.SetNode("client")
@@ -264,6 +309,19 @@ func (c19) Run(c *core.Case, env *core.Env) {
 				zzsim.SetNode("server0")
 				victim.Terminate()
 				env.Probe("a-service-listed-first-went-away-during-the-requests")
+			}()
+		}
+		if c.P("mute", 0) == 1 && kind == "proxy" {
+			// (nobody waits for this goroutine: its request has no end)
+			go func() {
+				zzsim.SetNode("client")
+				for j := 0; j < c.P("mute_delay", 0); j++ {
+					zzsim.Yield("h.mute-delay")
+				}
+				h := env.Invoke(80, "proxy-of-a-mute-service", "ProbeMute")
+				env.Probe("requests-for-a-service-whose-endpoint-never-answers")
+				_, err := sess.Proxy("ProbeMute", 1)
+				env.Return(h, "", err)
 			}()
 		}
 		for _, a := range actors {
@@ -421,6 +479,11 @@ func (c19) Check(c *core.Case, env *core.Env, res zzsim.Result, v *core.Verdict)
 	}
 	hs := env.History()
 	for _, h := range hs {
+		if h.Kind == "proxy-of-a-mute-service" {
+			// a request for a service whose endpoint says nothing may wait for
+			// ever or fail; it is the others that are judged
+			continue
+		}
 		if h.Ret == 0 {
 			bad("hang/"+h.Kind, "operation never returned: %s", h)
 			continue
